@@ -15,6 +15,7 @@ sys.path.insert(0, VERIF)
 import build as builder  # noqa: E402
 
 DEFAULT_SEED = 20261002
+HISTORY_MAX_S = 60.0     # histories are only kept (and replayed) while the process has spent less than this inside cases
 
 
 def canon(obj):
@@ -108,7 +109,9 @@ def _worker(args):
         ntset = set()
         curfile = os.path.join(VERIF, ".cache", "current", "%s_%s_%d.json" % (prop, subname, wid))
         os.makedirs(os.path.dirname(curfile), exist_ok=True)
-        state = dict(fail_case=None, fail_out=None, after_fail=0)
+        state = dict(fail_case=None, fail_out=None, after_fail=0, history=None)
+        executed = []          # every case this process has run so far (for history-dependent failures)
+        spent = [0.0]
 
         def body(case):
             if time.time() > deadline:
@@ -123,8 +126,13 @@ def _worker(args):
                     cf.write(canon(case))
             except Exception:
                 pass
+            tc = time.time()
             out = sub.run(case)
+            spent[0] += time.time() - tc
             res["evaluations"] += 1
+            if not out.ok:
+                state["history_now"] = list(executed) if spent[0] < HISTORY_MAX_S else None
+            executed.append(case)
             if out.discard:
                 res["discards"] += 1
                 return
@@ -149,6 +157,7 @@ def _worker(args):
                         return
                 state["fail_case"] = case
                 state["fail_out"] = dict(msg=out.msg, sig=out.sig)
+                state["history"] = state.get("history_now")
                 raise AssertionError(out.msg)
 
         if cases is not None:
@@ -161,7 +170,7 @@ def _worker(args):
             except AssertionError:
                 pass
             if state["fail_case"] is not None:
-                res["failure"] = dict(case=state["fail_case"], **state["fail_out"])
+                res["failure"] = dict(case=state["fail_case"], history=state["history"], **state["fail_out"])
             res["nontrivial"] = sorted(ntset)
             res["wall"] = time.time() - t0
             shutil.rmtree(scratch, ignore_errors=True) if res.get("failure") is None else None
@@ -184,7 +193,7 @@ def _worker(args):
             else:
                 res["flaky_note"] = repr(e)[:500]
         if state["fail_case"] is not None:
-            res["failure"] = dict(case=state["fail_case"], **state["fail_out"])
+            res["failure"] = dict(case=state["fail_case"], history=state["history"], **state["fail_out"])
         res["nontrivial"] = sorted(ntset)
     except BaseException as e:
         res["error"] = "".join(traceback.format_exception(type(e), e, e.__traceback__))[-3000:]
@@ -271,7 +280,8 @@ def load_known(prop):
 
 def run_case_isolated(args):
     """execute one stored case in a fresh process (replay / regress)"""
-    prop, subname, case, tier, arts, wid = args
+    prop, subname, case, tier, arts, wid = args[:6]
+    history = args[6] if len(args) > 6 else None
     try:
         for k, v in arts.items():
             os.environ["VERIF_" + k.upper()] = v
@@ -279,6 +289,12 @@ def run_case_isolated(args):
         os.chdir(scratch)
         mod = importlib.import_module("checks." + prop.lower())
         sub = [s for s in mod.subs(tier) if s.name == subname][0]
+        for h in history or []:
+            # earlier cases of the same process: their own verdicts do not matter here, only the state they leave behind
+            try:
+                sub.run(h)
+            except Exception:
+                pass
         out = sub.run(case)
         shutil.rmtree(scratch, ignore_errors=True)
         return dict(ok=out.ok, msg=out.msg, sig=out.sig, discard=out.discard)
@@ -286,12 +302,51 @@ def run_case_isolated(args):
         return dict(ok=None, msg="harness error: " + "".join(traceback.format_exception(type(e), e, e.__traceback__))[-2000:], sig="")
 
 
-def replay3(prop, subname, case, tier, arts, pool_ctx):
+def replay3(prop, subname, case, tier, arts, pool_ctx, history=None):
     outs = []
     for i in range(3):
-        o = run_jobs(run_case_isolated, [(prop, subname, case, tier, arts, 90 + i)], 1, pool_ctx, hard_timeout=3600)[0]
+        o = run_jobs(run_case_isolated, [(prop, subname, case, tier, arts, 90 + i, history)], 1, pool_ctx, hard_timeout=3600)[0]
         outs.append(_norm_isolated(o))
     return outs
+
+
+def shrink_history(prop, subname, case, history, sig, tier, arts, pool_ctx, budget=48):
+    """The case passes in a fresh process but failed inside a worker: find a short list of earlier cases of that
+    worker after which it fails again (delta debugging over the history; every trial in a fresh process).
+    Returns the shortened history, or None when even the full history does not reproduce the failure."""
+    runs = [0]
+
+    def fails(hist):
+        runs[0] += 1
+        o = _norm_isolated(run_jobs(run_case_isolated, [(prop, subname, case, tier, arts, 80 + runs[0] % 8, hist)], 1, pool_ctx, hard_timeout=1800)[0])
+        return o["ok"] is False and (not sig or o.get("sig") == sig)
+    if not history or not fails(history):
+        return None
+    hist = list(history)
+    n = 2
+    while len(hist) >= 1 and runs[0] < budget:
+        chunk = max(1, len(hist) // n)
+        parts = [hist[i:i + chunk] for i in range(0, len(hist), chunk)]
+        reduced = False
+        for part in parts:                      # a single chunk suffices?
+            if runs[0] >= budget:
+                break
+            if len(parts) > 1 and fails(part):
+                hist, n, reduced = part, 2, True
+                break
+        if not reduced:
+            for i in range(len(parts)):         # or the complement of one chunk
+                if runs[0] >= budget or len(parts) <= 2:
+                    break
+                comp = [c for j, pt in enumerate(parts) if j != i for c in pt]
+                if fails(comp):
+                    hist, n, reduced = comp, max(n - 1, 2), True
+                    break
+        if not reduced:
+            if chunk == 1:
+                break
+            n = min(len(hist), n * 2)
+    return hist
 
 
 def _norm_isolated(o):
@@ -348,7 +403,7 @@ def main(argv=None):
     if a.replay:
         with open(a.replay) as f:
             rp = json.load(f)
-        outs = replay3(prop, rp["sub"], rp["case"], tier, arts, ctx)
+        outs = replay3(prop, rp["sub"], rp["case"], tier, arts, ctx, rp.get("history"))
         bad = [o for o in outs if o["ok"] is False]
         print(json.dumps(outs, indent=1)[:4000])
         if len(bad) == 3:
@@ -369,14 +424,14 @@ def main(argv=None):
             if rp["sub"] not in [s.name for s in subs]:
                 continue
             jobs.append((f, rp))
-        outs = [_norm_isolated(o) for o in run_jobs(run_case_isolated, [(prop, rp["sub"], rp["case"], tier, arts, 60 + (i % 30)) for i, (f, rp) in enumerate(jobs)],
+        outs = [_norm_isolated(o) for o in run_jobs(run_case_isolated, [(prop, rp["sub"], rp["case"], tier, arts, 60 + (i % 30), rp.get("history")) for i, (f, rp) in enumerate(jobs)],
                                                     min(16, max(1, len(jobs))), ctx, hard_timeout=3600)]
         for (f, rp), o in zip(jobs, outs):
             n_regress += 1
             if o["ok"] is False:
                 path = os.path.join(regress_dir, f)
                 # confirm 3x
-                o3 = replay3(prop, rp["sub"], rp["case"], tier, arts, ctx)
+                o3 = replay3(prop, rp["sub"], rp["case"], tier, arts, ctx, rp.get("history"))
                 if all(x["ok"] is False for x in o3):
                     violations.append((path, o["msg"]))
             elif o["ok"] is None:
@@ -485,9 +540,23 @@ def main(argv=None):
             seen_sigs.add(key)
             o3 = replay3(prop, sname, fl["case"], tier, arts, ctx)
             nbad = sum(1 for x in o3 if x["ok"] is False)
+            hist = None
+            if nbad == 0 and fl.get("history"):
+                # passes alone, failed inside a worker that had run other cases before: state left behind by earlier
+                # cases in the code under test (function-local statics, caches) is part of the input -> look for it
+                hist = shrink_history(prop, sname, fl["case"], fl["history"], fl["sig"], tier, arts, ctx)
+                if hist is not None:
+                    oh = replay3(prop, sname, fl["case"], tier, arts, ctx, hist)
+                    if not all(x["ok"] is False for x in oh):
+                        hist = None
             if nbad == 3:
                 path = save_replay(prop, sname, fl["case"], fl["msg"])
                 violations.append((path, fl["msg"]))
+            elif hist is not None:
+                msg = ("history-dependent: the case passes in a fresh process and fails (3/3) when %d earlier case(s) were executed in the same process before it: %s"
+                       % (len(hist), fl["msg"]))
+                path = save_replay(prop, sname, fl["case"], msg, history=hist)
+                violations.append((path, msg))
             else:
                 flaky.append(dict(sub=sname, case=fl["case"], msg=fl["msg"], refail=nbad))
                 print("FLAKY-ORACLE (not a violation; %d/3 re-executions fail) sub=%s msg=%s" % (nbad, sname, fl["msg"][:300]))
@@ -541,13 +610,16 @@ def main(argv=None):
     return 0
 
 
-def save_replay(prop, subname, case, msg):
+def save_replay(prop, subname, case, msg, history=None):
     d = os.environ.get("VERIF_REPLAY_DIR") or os.path.join(VERIF, "replays")
     os.makedirs(d, exist_ok=True)
-    h = case_hash(dict(sub=subname, case=case))
+    h = case_hash(dict(sub=subname, case=case, history=history))
     path = os.path.join(d, "%s-%s.json" % (prop, h))
+    rec = dict(property=prop, sub=subname, case=case, msg=msg)
+    if history:
+        rec["history"] = history      # executed first, in the same process
     with open(path, "w") as f:
-        json.dump(dict(property=prop, sub=subname, case=case, msg=msg), f, indent=1, default=_jd)
+        json.dump(rec, f, indent=1, default=_jd)
     return path
 
 
